@@ -157,6 +157,13 @@ def c17(tier):
         obs.append(o)
     return obs
 
+def c11(tier):
+    A = ['days_to_date']
+    obs = [Ob('c01_days_to_date_holds', slices=[{'d': (-2**31, -1)}, {'d': (0, 2**31 - 1)}], note='contract of days_to_date used below')]
+    for f in fns_of('c11_', 'append_util-format__verif_fmt.rs'):
+        obs.append(Ob(f, abstractions=A if '_date_' in f else (), opts={'fmt_terms': True}, validate=True))
+    return obs
+
 PROPS = {
     'C01': {'obligations': c01,
             'bounds': 'all 2^32 day numbers; all (year, month, day) in i32 x u32 x u32; month loop unwound 16 with unwinding assertion',
@@ -169,6 +176,7 @@ PROPS = {
     'C08': {'obligations': c08, 'bounds': 'all times of day x all u32 counts; all pairs of Times; all Durations', 'outside': ''},
     'C09': {'obligations': c09, 'bounds': 'all instants with a two-day margin at the range ends x all offsets in (-24h, 24h) x all u32/i32 candidate values', 'outside': 'the two days at each end of the range'},
     'C10': {'obligations': c10, 'bounds': 'all instants with a one-day margin at the range ends x all offsets in (-24h, 24h)', 'outside': 'the x/X zone text (C11); Offset::Local (reads /etc/localtime: C18)'},
+    'C11': {'obligations': c11, 'bounds': 'REDUCED: one-symbol patterns only: every documented symbol x widths 1..=max+2, all days / all times of day x all offsets; strings compared as terms (renderer, template, arguments)', 'outside': 'the tokenizer parse_format_string, concatenation order, literals and quoting; the `yy` field; that the leaf renderers (std formatting) print digits correctly'},
     'C13': {'obligations': c13, 'bounds': 'read side only: all strings of each listed byte length (<= 45) over ASCII and two-byte UTF-8 sequences; reference reader loop unwound 30', 'outside': 'format_rfc3339 (String building); strings with 3/4-byte characters; lengths above 45'},
     'C14': {'obligations': c14, 'bounds': 'DateTime::parse_rfc3339 and DateTime::from_str only: all strings of each listed byte length (<= 45) over ASCII and two-byte UTF-8', 'outside': 'parse()/format() with pattern strings, Date/Time::from_str, CronSchedule::parse (String/Vec<String> code out of reach)'},
     'C17': {'obligations': c17, 'cfg_test': True, 'bounds': 'all schedules (any non-empty subsets of the five field ranges), clock and loop state in the stated day window (quick: 2022-2025, thorough: 1970-9999), offset 0; any number of carry steps by induction over loop iterations (meta-step)', 'outside': 'termination for unsatisfiable schedules; schedules whose pinned clock carries a non-zero offset; expression parsing (C16)'},
